@@ -13,6 +13,14 @@ package main
 //   getblock GetBlock(B) answered from the network followed by GetCFilter(B),
 //            B spending a non-empty script
 
+//   lag      filters cached / persisted, then the filter headers rolled back
+//            below their blocks WITHOUT being re-committed (From = 1: the
+//            reset of the filter headers on start-up), then GetCFilter for
+//            blocks above and at the filter-header tip with the network
+//            silent, honest, or serving filters that match the old headers;
+//            optionally the filter headers catch up again (other filters
+//            committed for some blocks) and the blocks are asked once more
+
 import "math/rand"
 
 func honestRange(st, sp int) []Resp {
@@ -277,6 +285,90 @@ func genGetBlock(r *rand.Rand, id int, cfg ChainCfg) History {
 		h.Ops = append(h.Ops, f)
 		if r.Intn(3) == 0 {
 			h.Ops = append(h.Ops, Op{Kind: "call", Height: b, Verdict: "err"})
+		}
+	}
+	return h
+}
+
+func genLag(r *rand.Rand, id int, cfg ChainCfg) History {
+	h := History{ID: id, Chain: cfg, Persist: r.Intn(3) > 0, CacheCap: 1 << 20}
+	if r.Intn(5) == 0 {
+		h.CacheCap = uint64(60 + r.Intn(120))
+	}
+	best := cfg.FTip
+	n := len(cfg.Specs)
+	// local copies: a window of filters fetched the normal way
+	t := 1 + r.Intn(best)
+	maxb := int64(3 + r.Intn(6))
+	st, sp := clampRange(t, best, 1, maxb)
+	h.Ops = append(h.Ops, Op{Kind: "call", Height: t, Batch: 1, MaxBatch: maxb, Resps: honestRange(st, sp), Verdict: "ok"})
+	// the filter headers go back below (some of) them
+	k := st + r.Intn(sp-st+1)
+	if k > st && r.Intn(3) == 0 {
+		k++ // the new tip is a block with a local copy
+	}
+	if k > best {
+		k = best
+	}
+	reset := r.Intn(4) == 0
+	if reset {
+		k = 1
+	}
+	h.Ops = append(h.Ops, Op{Kind: "rollback", From: k})
+	if reset || (h.Persist && r.Intn(2) == 0) {
+		h.Ops = append(h.Ops, Op{Kind: "dropcache"}) // restart: the database copies survive
+	}
+	tip := k - 1
+	ask := func(tip int, old bool) {
+		op := Op{Kind: "call", Batch: []int{0, 0, 1, 2, 2}[r.Intn(5)], MaxBatch: []int64{0, 2, 3, 5}[r.Intn(4)]}
+		switch x := r.Intn(10); {
+		case x < 5 && k <= sp: // above the tip, local copy likely
+			op.Height = k + r.Intn(sp-k+1)
+		case x < 7:
+			op.Height = tip
+		case x < 8 && sp < n:
+			op.Height = sp + 1
+		default:
+			op.Height = st + r.Intn(sp-st+1)
+		}
+		a, b := clampRange(op.Height, tip, op.Batch, op.MaxBatch)
+		switch r.Intn(3) {
+		case 0: // the network is silent
+		case 1: // honest peers: what they can serve, and the target itself
+			op.Resps = honestRange(a, b)
+			op.Resps = append(op.Resps, Resp{Kind: "honest", Height: op.Height})
+		default: // filters that matched the headers before the rollback
+			op.Resps = append(op.Resps, Resp{Kind: "honest", Height: op.Height})
+			if old {
+				op.Resps = append([]Resp{{Kind: "alt_variant", Height: op.Height}}, op.Resps...)
+			}
+			for hh := a; hh <= b; hh++ {
+				if r.Intn(2) == 0 {
+					op.Resps = append(op.Resps, Resp{Kind: "honest", Height: hh})
+				}
+			}
+		}
+		op.Verdict = []string{"ok", "ok", "err"}[r.Intn(3)]
+		h.Ops = append(h.Ops, op)
+	}
+	for i, m := 0, 3+r.Intn(3); i < m; i++ {
+		ask(tip, false)
+	}
+	// the filter headers catch up; some blocks now commit to another filter
+	if r.Intn(2) == 0 {
+		up := sp
+		if r.Intn(2) == 0 {
+			up = best
+		}
+		var tg []int
+		for hh := k; hh <= up; hh++ {
+			if r.Intn(3) == 0 {
+				tg = append(tg, hh)
+			}
+		}
+		h.Ops = append(h.Ops, Op{Kind: "extend", Upto: up, Toggle: tg})
+		for i, m := 0, 2+r.Intn(3); i < m; i++ {
+			ask(up, true)
 		}
 	}
 	return h
